@@ -1,6 +1,6 @@
 """C10 (lattice family; see latfam.py)."""
-from . import latfam
+from . import latfam, util
 
-globals().update(latfam.module('C10', ['C10_object_concept_partial', 'C10_attribute_concept_partial'],
+globals().update(latfam.module('C10', util.theorems('C10'),
     'contexts as C03 (duplicate rows/columns, full rows, empty/full columns in FAM and EXH); observation = objects, properties, atoms of every concept and the label part of str(concept)/str(lattice); non-trivial = a concept with >=2 labels or a label on bottom/top',
-    extra_targets=['Tie/Matrices.vo'], partial='per-concept tuples decided by the correspondence'))
+    extra_targets=['Tie/Matrices.vo'], partial=''))
